@@ -76,6 +76,12 @@ func (s *State) execCallWithArgs(c *ssa.CallCommon, instr ssa.Value, args []Val,
 			s.coll.notes = append(s.coll.notes, fmt.Sprintf("%s calls %s which has no contract: all heaps havocked", s.eng.fnKey(s.fn), key))
 			s.checkFrameAll(where, "call of "+key+" (no contract)")
 			s.havocAll()
+			// local variables the closure captured (kept as cells because it is normally verified in place) may have changed too
+			for _, b := range binds {
+				if b.Loc != nil && b.Loc.Cell != nil {
+					s.cells[b.Loc.Cell] = s.freshVal("captured:"+b.Loc.Cell.Comment, derefType(b.Loc.Cell.Type()))
+				}
+			}
 			s.bumpAlloc()
 			return s.freshResult(c, "ret:"+callee.Name())
 		}
